@@ -273,10 +273,14 @@ package schemabuilder
 // recovering wrappers - with the field, the node(s) and the arguments of this very call - never called directly.
 // (The filter-type functions of a custom filter are called directly by checkFilters and the batch filter closure; a panic
 // in one of those, on a goroutine of the expensive or batched filter path, is not contained - noted in DESIGN.md.)
+// (the sort and filter tables hold the fields schemabuilder built for the registered functions: never nil)
+//@ nonnil elem *graphql.Field
 //@ func getSortReference
+//@   assume sortField != nil
 //@   nocall dynamic
 //@   call SafeExecuteResolver assert arg1 == sortField && arg2 == node && arg3 == userArgs
 //@ func connectionContext.checkFilters
 //@   call SafeExecuteResolver assert arg1 == filterField && arg2 == node && arg3 == userArgs
 //@ func connectionContext.applyBatchTextFilter$1
+//@   assume deref(filterField) != nil
 //@   call SafeExecuteBatchResolver assert arg1 == filterField && arg2 == nodes && arg3 == userArgs
